@@ -71,7 +71,12 @@ def gen_case(rng, i):
             bound[nm] = {"names": [other], "shape": [], "dtype": "int64", "kind": "int", "terms": [[[1], [1]]], "as": "poly"}
             continue
         if mode == "poly" and rng.random() < .6:
-            s = gen.gen_struct(rng, names=gen.gen_names(rng, 1, 2), shape=gen.sub_shape(rng, common), kind="int", nterms=2, maxexp=1, lim=2)
+            if rng.random() < .4:
+                # three or more terms in one indeterminate (evenly spaced exponents collide when such an argument is
+                # squared: seeded change C02-14 lost a cross term landing on a square's exponent)
+                s = gen.gen_struct(rng, names=gen.gen_names(rng, 1, 1), shape=gen.sub_shape(rng, common), kind="int", nterms=3, maxexp=2, lim=2, zero_prob=0.)
+            else:
+                s = gen.gen_struct(rng, names=gen.gen_names(rng, 1, 2), shape=gen.sub_shape(rng, common), kind="int", nterms=2, maxexp=1, lim=2)
             s["as"] = "poly"
             bound[nm] = s
             continue
@@ -105,6 +110,13 @@ def gen_case(rng, i):
             k = next(i for i, x in enumerate(args) if x is not None)
             kwargs.append([names[k], args[k]])
             err = "double"
+    if len(names) >= 2 and mode != "error" and rng.random() < .15:
+        # the polynomial's own names declared in a rotated / reversed order; positional arguments follow the stored name
+        # tuple, so every argument goes by keyword (seeded change C02-13: a reorder of the exponent columns by the inverse
+        # permutation, invisible for two names and for reversals)
+        a["as"] = gen.choice(rng, ["poly_rot", "poly_perm"])
+        kwargs = [[names[k], x] for k, x in enumerate(args) if x is not None] + kwargs
+        args = []
     # bound the magnitude: values up to 1e5 squared with coefficient 3 and 6 terms stay far below 2**52
     return {"id": i, "kind": "c02", "a": a, "args": args, "kwargs": kwargs, "mode": mode, "err": err}
 
@@ -185,9 +197,11 @@ def call_impl(p, args, kwargs):
 
 def check(ctx, c, model, monitor=None):
     tags = [f"mode:{c['mode']}"]
-    p = gen.materialize(c["a"])
+    p = gen.materialize(c["a"], c["a"].get("as", "poly"))
     ctx.evaluations += 1
     ctx.count(f"mode={c['mode']}")
+    if c["a"].get("as", "poly") != "poly":
+        ctx.count("names-declared-in-another-order")
     den_p = den_of_struct(c["a"])
     used = {n for m in den_p for n, _ in m}
     boundnames = {c["a"]["names"][k] for k, x in enumerate(c["args"]) if x is not None} | {k for k, _ in c["kwargs"]}
